@@ -42,9 +42,17 @@ pub fn check_source(out: &mut Out, names: &mut Ser, src: &str, origin: &str) {
         Ok((Final::Value, v, _)) => format!("value {}", es.term(v, HoleMode::ZonkErase)),
         Ok((Final::Stuck(r), v, _)) => format!("stuck {} {}", r, es.term(v, HoleMode::ZonkErase)),
     };
+    es.reset_holes();
+    let oz_e = es.term(&elab, HoleMode::ZonkIds);
+    let oz_t = es.term(&_ty, HoleMode::ZonkIds);
+    let hexsrc: String = src.bytes().map(|b| format!("{b:02x}")).collect();
+    let hc = holecopy_events() - hc0;
+    let oz_v = match &ev { Ok((Final::Value, v, _)) => Some(es.term(v, HoleMode::ZonkIds)), _ => None };
     names.names = std::mem::take(&mut es.names);
     names.name_list = std::mem::take(&mut es.name_list);
     out.case(&format!("evalz {EVAL_CAP} {zonked}"), &answer);
+    out.case(&format!("oracle 3000 {oz_e} {oz_t} C03 hc={hc} src:{hexsrc}"), "ok");
+    if let Some(v) = oz_v { out.case(&format!("oracle 3000 {v} {oz_t} C04 hc={hc} src:{hexsrc}"), "ok"); }
     match &ev {
         Err(m) => out.hit("C14", "evaluate-panic", src, m),
         Ok((Final::Value, _, n)) => { out.stat("eval:value"); out.stat_add("eval:steps", *n as u64); }
